@@ -3,6 +3,7 @@ import json, os
 from lib import vf
 from lib import trxd as T
 from gen import trxd_consts
+from props import c13_rand_part as rand      # part "rand": the message generators rand_* of data_msg.py
 
 ID = "C13"
 LEVEL = "proof"
@@ -21,6 +22,11 @@ MANIFEST = {
     "technique": "Lean 4 proof over a hand model with regenerated bounds; differential correspondence on the complete boundary lattice; literal-range oracle on the real code",
     "design_ref": "DESIGN.md section 5 C13",
 }
+LEAN_MODULES += rand.LEAN_MODULES
+DRIVER_MODULES += rand.DRIVER_MODULES
+LEAN_MODEL_MODULES += rand.LEAN_MODEL_MODULES
+ASSUMPTIONS += rand.ASSUMPTIONS
+MANIFEST = dict(MANIFEST, text=MANIFEST["text"] + rand.MANIFEST_TEXT, note=MANIFEST["note"] + rand.MANIFEST_NOTE)
 # AST hash of the modelled functions on the tree the model was written against (fixed tree)
 MODELLED = ["validate", "_validate_burst_v0", "_validate_burst_v1", "validate_burst", "gen_msg", "send_msg"]
 KNOWN_HASHES = {"data_msg.py": "a1e35ecaae246a26", "data_if.py": "a87e472643d68c1b"}
@@ -113,6 +119,7 @@ def correspond(run, corr):
     for i in range(0, len(reqs), max(1, len(reqs) // 6)):
         corr.samples.append({"request": reqs[i][:300], "impl": impl[i][:200], "model": model[i][:200]})
         k += 1
+    rand.correspond(run, corr)
 
 
 def judge(kind, m, l, va, ga, sa):
@@ -200,7 +207,7 @@ def search(run, corr, deep):
                   "spec_in_range": T.in_range_tx(mm) if kind == "tx" else T.in_range_rx(mm),
                   "failing_cases_in_this_run": len(fails)})
         found += run.report_witness(w)
-    return found
+    return found + rand.search(run, corr, deep)
 
 
 def replay(run, path):
@@ -210,6 +217,11 @@ def replay(run, path):
         w = v.get("witness")
         if not w:
             print("replay: no concrete input recorded (%s)" % json.dumps(v.get("broken"))[:400])
+            continue
+        if w.get("part") == "rand":
+            still, text = rand.replay(run, w)
+            print(text)
+            bad += still
             continue
         kind = "tx" if w["class"] == "TxMsg" else "rx"
         if kind == "tx":
